@@ -64,6 +64,15 @@ func setExt(w *wsutil.Writer, e string, st *wsflate.MessageState) {
 	case "c1":
 		st.SetCompressed(true)
 		w.SetExtensions(st)
+	case "c0x1", "c0x2", "c0x3", "c1x1", "c1x2", "c1x3":
+		// the compression message state FOLLOWED by a second send extension of the application's own that marks
+		// every frame it is shown with RSV3 / RSV2 / both: each extension is handed the previous one's header
+		st.SetCompressed(e[1] == '1')
+		bits := e[3] - '0'
+		w.SetExtensions(st, wsutil.SendExtensionFunc(func(h ws.Header) (ws.Header, error) {
+			h.Rsv |= bits
+			return h, nil
+		}))
 	case "x1", "x2", "x3":
 		// a send extension of the application's own that marks EVERY frame it is shown (RSV3 / RSV2 / both)
 		bits := e[1] - '0'
